@@ -89,6 +89,12 @@ func (g *Glyph) encodeCharString(defaultWidth, nominalWidth float64) ([]byte, er
 
 	data := encodePaths(g.Cmds)
 
+	for _, b := range append(header[:len(header):len(header)], data...) {
+		if b == nil { // encodeNumber could not represent a coordinate difference
+			return nil, errors.New("cff: coordinate difference outside the Type 2 number range")
+		}
+	}
+
 	k := 0
 	for _, b := range header {
 		k += len(b)
@@ -484,7 +490,13 @@ func (x encodedNumber) String() string {
 }
 
 // encodeNumber encodes the given number into a CFF encoding.
+// If x cannot be represented as a 16.16 fixed point number,
+// the Code field of the result is nil.
 func encodeNumber(x float64) encodedNumber {
+	if r := math.Round(x * 65536); !(r >= math.MinInt32 && r <= math.MaxInt32) {
+		return encodedNumber{Val: x}
+	}
+
 	var code []byte
 
 	// TODO(voss): consider using t2dup here.
